@@ -41,6 +41,7 @@ pub fn dump_static<'tcx>(cx: &Cx<'tcx>, did: DefId) -> Option<J> {
     let tcx = cx.tcx;
     let mut o = J::obj();
     o.put("path", J::s(&cx.name(did)));
+    o.put("id", J::s(&cx.raw_id(did)));
     o.put("kind", J::s("static"));
     o.put("mutable", J::Bool(tcx.is_mutable_static(did)));
     o.put("tls", J::Bool(tcx.is_thread_local_static(did)));
@@ -102,7 +103,10 @@ pub fn decode_const_value<'tcx>(
             let (prov, off) = ptr.prov_and_relative_offset();
             let mut o = J::obj();
             match tcx.global_alloc(prov.alloc_id()) {
-                GlobalAlloc::Static(s) => o.put("static", J::s(&cx.name(s))),
+                GlobalAlloc::Static(s) => {
+                    o.put("static", J::s(&cx.name(s)));
+                    o.put("static_id", J::s(&cx.raw_id(s)));
+                }
                 GlobalAlloc::Function { instance } => o.put("fnptr", J::s(&cx.name(instance.def_id()))),
                 GlobalAlloc::Memory(mem) => {
                     if let ty::Ref(_, inner, _) = ty.kind() {
@@ -226,6 +230,7 @@ pub fn decode<'tcx>(
             match ga {
                 GlobalAlloc::Static(s) => {
                     o.put("static", J::s(&cx.name(s)));
+                    o.put("static_id", J::s(&cx.raw_id(s)));
                 }
                 GlobalAlloc::Function { instance } => {
                     o.put("fnptr", J::s(&cx.name(instance.def_id())));
